@@ -5,6 +5,8 @@
 # --full : the patch is applied to /repo itself, the complete checks run (translator, proofs, correspondence),
 #          and /repo is ALWAYS restored afterwards.  Use only when nothing else is using /repo.
 set -u
+# a broken correspondence starts the search for a failing input; for seed trials a small budget is enough
+export VERIF_SEARCH_SCALE="${VERIF_SEARCH_SCALE:-2}"
 FULL=0
 GEN=0
 if [ "$1" = "--full" ]; then FULL=1; shift; fi
